@@ -621,7 +621,7 @@ class GateSim(PeerSim):
             return
         integrity = defect in ("sender_wrong", "target_wrong", "swapped", "sender_missing", "target_missing", "seq_missing",
                                "seq_alpha")
-        too_low = defect == "seq_low" and not pd and not t.startswith("4") and not in_recovery
+        too_low = defect == "seq_low" and not t.startswith("4") and not in_recovery  # (PossDupFlag or not: the statement makes no exception)
         if integrity or too_low:
             if delivered:
                 bad("defective-frame-delivered", "handed to on_message")
